@@ -68,9 +68,19 @@ def split_root(name):
     return name[:i], name[i:]
 
 def constructible(name):
+    """the name as a whole is accepted by chord construction, and so is each half of a polychord name; a polychord 'X|Y' is
+    Y's notes followed by X's (a note equal to the one just before it not repeated), so no half loses a note"""
     try:
-        for half in name.split("|"):
-            chords.from_shorthand(half)
+        whole = chords.from_shorthand(name)
+        if "|" in name:
+            x, y = name.split("|", 1)
+            cx, cy = chords.from_shorthand(x), chords.from_shorthand(y)
+            want = list(cy)
+            for n in cx:
+                if not want or want[-1] != n:
+                    want.append(n)
+            if whole != want:
+                return False
         return True
     except Exception:
         return False
